@@ -224,3 +224,97 @@ func runMonOverlap(end, evk, dir string) monOverlapObs {
 	}
 	return o
 }
+
+// TestStopOverlap: Manager.Stop issued while a subscriber callback (global or per-transfer, on an ordinary or on the terminal event of its channel)
+// is still running. Stop may wait for the callback; once the callback returns, Stop - and the notifier - have to come to rest.
+func TestStopOverlap(t *testing.T) {
+	out := os.Getenv("VERIF_OUT")
+	if out == "" {
+		t.Skip("VERIF_OUT not set")
+	}
+	of, err := os.Create(out)
+	if err != nil {
+		t.Fatal(err)
+	}
+	defer of.Close()
+	enc := json.NewEncoder(of)
+	for _, kind := range []string{"perTransfer", "global"} {
+		for _, ev := range []string{"Cancel", "CleanupComplete", "Accept"} {
+			for _, dir := range []string{"push", "pull"} {
+				o := monOverlapObs{Case: "stopoverlap-" + kind + "-" + ev + "-" + dir, Scenario: "stop||" + kind + "Subscriber:" + ev, Frames: []string{}}
+				n, err := kit.NewMgrNode("A", kit.NewRecDS(), []string{"vt"})
+				if err != nil {
+					o.Err = "node: " + err.Error()
+					_ = enc.Encode(o)
+					continue
+				}
+				held := make(chan struct{}, 1)
+				release := make(chan struct{})
+				var once sync.Once
+				cb := func(evt datatransfer.Event, st datatransfer.ChannelState) {
+					if kit.EventName(evt.Code) == ev {
+						once.Do(func() {
+							held <- struct{}{}
+							<-release
+						})
+					}
+				}
+				ctx := context.Background()
+				other := kit.Peer("B")
+				var opts []datatransfer.TransferOption
+				if kind == "perTransfer" {
+					opts = append(opts, datatransfer.WithSubscriber(cb))
+				} else {
+					n.M.SubscribeToEvents(cb)
+				}
+				var chid datatransfer.ChannelID
+				if dir == "pull" {
+					chid, err = n.M.OpenPullDataChannel(ctx, other, kit.Voucher("v0"), kit.Cid("base"), kit.Selector("s"), opts...)
+				} else {
+					chid, err = n.M.OpenPushDataChannel(ctx, other, kit.Voucher("v0"), kit.Cid("base"), kit.Selector("s"), opts...)
+				}
+				if err != nil {
+					o.Err = "open: " + err.Error()
+					_ = enc.Encode(o)
+					continue
+				}
+				go func() {
+					if ev == "Accept" {
+						acc, _ := kit.BuildMsg(kit.Msg{Kind: "New", Tid: uint64(chid.ID), Accepted: true})
+						if dir == "pull" {
+							_ = n.Tr.Events.OnResponseReceived(chid, acc.(datatransfer.Response))
+						} else {
+							n.Net.Recv.ReceiveResponse(ctx, other, acc.(datatransfer.Response))
+						}
+					} else {
+						_ = n.M.CloseDataTransferChannel(ctx, chid)
+					}
+				}()
+				select {
+				case <-held:
+				case <-time.After(3 * time.Second):
+					o.Err = "the event " + ev + " was not announced"
+					close(release)
+					_ = enc.Encode(o)
+					continue
+				}
+				stopped := make(chan struct{})
+				go func() {
+					sctx, cancel := context.WithTimeout(context.Background(), 10*time.Second)
+					_ = n.M.Stop(sctx)
+					cancel()
+					close(stopped)
+				}()
+				time.Sleep(150 * time.Millisecond) // Stop is now inside the manager (it may legitimately wait for the callback)
+				close(release)
+				select {
+				case <-stopped:
+					o.Returned = true
+				case <-time.After(4 * time.Second):
+					o.Frames = libFrames()
+				}
+				_ = enc.Encode(o)
+			}
+		}
+	}
+}
